@@ -193,6 +193,7 @@ class Interp:
         self.prog = prog
         self.paths_returned = 0
         self.merged = 0
+        self._quiet_cache = {}
         self.types = {}
         for p in fn.get('params', []):
             self.types[p['var']['name']] = p['type']
@@ -595,6 +596,107 @@ class Interp:
                 out.append(ns)
         return out
 
+    # ---- summarising regions that cannot matter to the rule (speed; enabled per analysis with QUIET=True) ------------
+    QUIET = False
+
+    def interesting_call(self, e):
+        """Calls the rule observes; a region without any of them (and without writes to tracked variables) is summarised."""
+        return True
+
+    def quiet_info(self, s):
+        """None if the statement must be interpreted; else (assigned lvalues, [Return statements inside])."""
+        c = self._quiet_cache.get(id(s))
+        if c is not None:
+            return c if c != 0 else None
+        assigned, returns = set(), []
+        ok = True
+        loop = s['k'] in ('For', 'While', 'Do')
+
+        def rec(n, inloop):
+            nonlocal ok
+            if not ok or not isinstance(n, (dict, list)):
+                return
+            if isinstance(n, list):
+                for x in n:
+                    rec(x, inloop)
+                return
+            k = n.get('k')
+            if k == 'Return':
+                if loop:
+                    returns.append(n)
+                else:
+                    ok = False
+                    return
+            elif k in ('Break', 'Continue'):
+                if not inloop:
+                    ok = False
+                    return
+            elif k in ('Call', 'Ctor', 'New'):
+                if short(n.get('callee')) != 'softHSMLog' and self.interesting_call(n):
+                    ok = False
+                    return
+                pm = n.get('pm', '')
+                for i, a in enumerate(n.get('args', [])):
+                    if a is None:
+                        continue
+                    m = pm[i] if i < len(pm) else 'v'
+                    t = a['e'] if a.get('k') == 'Un' and a['op'] == '&' else a
+                    if (m in ('m', 'p') or a.get('k') == 'Un' and a['op'] == '&') and t.get('k') == 'Var':
+                        assigned.add(t['name'])
+                r = n.get('recv')
+                if r is not None and r.get('k') == 'Var' and not n.get('const') and not is_pure_name(short(n.get('callee'))):
+                    assigned.add(r['name'])
+            elif k == 'Assign' or (k == 'Un' and n.get('op') in ('++', '--')):
+                t = n['a'] if k == 'Assign' else n['e']
+                while t.get('k') in ('Index', 'Member'):
+                    t = t['base']
+                if t.get('k') == 'Un' and t['op'] == '*' and t['e'].get('k') == 'Var':
+                    assigned.add('*' + t['e']['name'])
+                elif t.get('k') == 'Var':
+                    assigned.add(t['name'])
+                    if t['name'] in self.TRACK:
+                        ok = False
+                        return
+                else:
+                    ok = False      # write through something we do not name: interpret normally
+                    return
+            elif k == 'Decl':
+                for d in n['decls']:
+                    assigned.add(d['var']['name'])
+            elif k in ('Delete', 'Throw', 'Try'):
+                ok = False
+                return
+            sub_loop = inloop or k in ('For', 'While', 'Do', 'Switch')
+            for key, v in n.items():
+                if isinstance(v, (dict, list)):
+                    rec(v, sub_loop if key in ('body', 'sub') else inloop)
+        rec(s, False)
+        if ok and s['k'] == 'Switch':
+            pass
+        res = (frozenset(assigned), returns) if ok else 0
+        self._quiet_cache[id(s)] = res
+        return res if res != 0 else None
+
+    def summarise(self, s, q, states):
+        assigned, returns = q
+        out = []
+        for st in states:
+            st = st.copy()
+            for n in assigned:
+                if n.startswith('*'):
+                    st.env.pop(n, None)
+                    st.facts = {f for f in st.facts if not mentions(f[0], n)}
+                else:
+                    kill(st, n)
+            st.step(s['l'], 'Q')
+            out.append(st)
+        for rstmt in returns:
+            for st in out:
+                st2 = st.copy()
+                self.paths_returned += 1
+                self.on_return(rstmt, st2)
+        return self.dedup(out)
+
     # ---- statements -----------------------------------------------------------------------
     def run(self, s, states):
         """Returns (fallthrough states, break states, continue states)."""
@@ -602,6 +704,10 @@ class Interp:
             return states, [], []
         self.on_stmt(s, states)
         k = s['k']
+        if self.QUIET and k in ('If', 'Switch', 'For', 'While', 'Do'):
+            q = self.quiet_info(s)
+            if q is not None:
+                return self.summarise(s, q, states), [], []
         if k == 'Block':
             brk, cont = [], []
             for c in s['body']:
@@ -899,6 +1005,16 @@ class Outcomes(Interp):
 
     def ev(self, st, item):
         st.aut['ev'] = st.aut.get('ev', ()) + (item,)
+
+    interesting = None      # optional finer predicate (call node -> bool) used only for quiet-region summarisation
+
+    def interesting_call(self, e):
+        if self.record_calls is None:
+            return True
+        c = short(e.get('callee')) if e.get('k') == 'Call' else ('new ' + e.get('type', '') if e.get('k') == 'New' else 'ctor ' + e.get('type', ''))
+        if c not in self.record_calls:
+            return False
+        return True if self.interesting is None else bool(self.interesting(e))
 
     def on_call(self, e, st):
         c = short(e.get('callee')) if e.get('k') == 'Call' else ('new ' + e.get('type', '') if e.get('k') == 'New' else 'ctor ' + e.get('type', ''))
